@@ -470,6 +470,44 @@ def r5_cli(F, res):
                           "Cli.%s is wired to %s, expected Settings::%s with %s polarity" % (
                               fld, sorted(got), exp[0], "positive" if exp[1] > 0 else "negative"), main.loc())
 
+    # R9: a command line without options equals an API call without setters. A `bool` Cli field is a clap flag
+    # (absent = false); when it is passed to its setter on every path the flagless CLI stores (false, or true when
+    # negated) where the API keeps the constant of `Settings::default()`.
+    rid9 = res.rule("C17-R9", "flagless command line = API defaults: every bool flag that rcomp always passes to its "
+                    "setter has, when absent, the value Settings::default() gives the field", floor=8)
+    dflt = F.fn("<rustemo_compiler::settings::Settings as core::default::Default>::default")
+    consts = None
+    if dflt is not None:
+        for _i, _j, s in dflt.stmts():
+            rv = s["rv"]
+            if rv.get("k") == "agg" and rv.get("adt") == "rustemo_compiler::settings::Settings":
+                consts = {n: (o.get("int") if o.get("k") == "const" and o.get("ty") == "bool" else None)
+                          for n, o in zip(rv["names"], rv["ops"])}
+    if consts is None:
+        res.anchor_lost(rid9, "the struct literal of <Settings as Default>::default not found")
+    else:
+        ftypes = {fl["name"]: fl.get("ty") for fl in cli["variants"][0]["fields"]}
+        for fld in fields:
+            if ftypes.get(fld) != "bool":
+                continue
+            for setter, pol in sorted(used.get(fld, set())):
+                if setter not in (order_unc or []) or setter not in consts:
+                    continue
+                api = consts[setter]
+                if api is None:
+                    res.undecided(rid9, "Settings::default() does not give `%s` a constant" % setter, dflt.loc())
+                    continue
+                cli_absent = 0 if pol > 0 else 1
+                if cli_absent == api:
+                    res.ok(rid9, "default/%s" % setter, dflt.loc(), "absent --%s stores %s = default" % (
+                        fld, bool(api)))
+                else:
+                    res.violation(rid9, "default/%s" % setter,
+                                  "rcomp without --%s calls Settings::%s(%s) while Settings::default() has %s: the "
+                                  "same grammar with no options is processed differently through the CLI and the "
+                                  "API" % (fld.replace("_", "-"), setter, str(bool(cli_absent)).lower(),
+                                           str(bool(api)).lower()), dflt.loc())
+
     # setters: own field := parameter on every returning path
     rid6 = res.rule("C17-R5b", "every Settings setter stores its parameter into the field of its own name; "
                     "side effects equal the documented table", floor=20)
